@@ -159,7 +159,9 @@ let handle_corr (rest : sexp list) : (string * string) list =
       List.iter (fun (c, d) -> add "specfail" (c ^ " " ^ d)) fails;
       if (not pok) && fails = [] then add "specfail" "stream_protocol stream_ok_b rejects the frame sequence";
       (* reconstruction: merge of the implementation's frames against the completion of the erased plan *)
-      (match complete_root (fun _ _ -> false) (erase r) j with
+      (* on data that needs no completion (strict_clean; __skipErrors markers suppress errors but not
+         the null bubbling, so "no error reported" alone is not enough) *)
+      (match (if strict_clean r j [] then complete_root (fun _ _ -> false) (erase r) j else (None, [])) with
        | (Some expected, []) ->
          (match recon with
           | L [A "some"; rj] ->
